@@ -129,7 +129,10 @@ func NewStdinReadStorage(reader io.Reader) (*stdinReadStorage, []cid.Cid, error)
 		lk:     &lk,
 		cond:   sync.NewCond(&lk),
 	}
-	rdr, err := car.NewBlockReader(reader)
+	// The input is consumed as a stream. A pipe on stdin is an *os.File, whose Seek method exists
+	// but fails ("illegal seek"); hand the block reader a plain io.Reader so that it skips the
+	// CARv2 header padding by reading instead of seeking.
+	rdr, err := car.NewBlockReader(struct{ io.Reader }{reader})
 	if err != nil {
 		return nil, nil, err
 	}
